@@ -4,6 +4,7 @@ SUF=$1; OFF=$2
 for f in /verif/logs/round$SUF/*.log; do
   b=$(basename $f .log); id=${b%-*}; n=${b#*-}
   d=/tmp/seed/${id}$SUF/_seed/$n
+  [ -d /verif/seeded/$id-$((n+OFF)) ] && continue   # kept already (its meta.json may carry notes)
   ok=1
   grep -q "^ok" $f || ok=0                       # demo passes on the pristine tree
   grep -q -- "--- FAIL\|^ *[0-9]* FAIL\|panic" $f || ok=0    # demo fails with the change
